@@ -210,8 +210,9 @@ namespace pika {
     namespace this_thread {
         PIKA_EXPORT thread::id get_id() noexcept;
 
-        PIKA_EXPORT void yield() noexcept;
-        PIKA_EXPORT void yield_to(thread::id) noexcept;
+        // Both functions are interruption points and may throw pika::thread_interrupted
+        PIKA_EXPORT void yield();
+        PIKA_EXPORT void yield_to(thread::id);
 
         // extensions
         PIKA_EXPORT execution::thread_priority get_priority();
